@@ -206,6 +206,10 @@ class SBytes:
                 if x == y:
                     return True
                 continue
+            if isinstance(y, int) and not isinstance(x, int):
+                k = known_codes(x)
+                if k is not None and y not in k:
+                    continue                 # e.g. a NUL test on base64 text: decided from the alphabet
             terms.append(_t8(x) == _t8(y))
         if not terms:
             return False
